@@ -275,6 +275,26 @@ pub fn run(ctx: &mut Ctx) {
             }
         }
     }
+    // ---- values of 64 KiB and more (a raw attribute made in memory, not parsed: its 16-bit length
+    //      field cannot hold the size): the decoders judge the value they are given, not length mod 2^16 ----
+    for k in ALL_KINDS {
+        if k == Kind::AlternateDomain {
+            // the crate documents that it enforces no limit here (FIXME in alternate.rs): what happens to a
+            // value that no wire encoding can carry is left open, and is not judged
+            continue;
+        }
+        for (j, len) in [65_536usize, 65_540, 65_544, 65_552, 65_556, 65_568, 65_541, 131_076, 196_640].into_iter().enumerate() {
+            idx += 1;
+            if !ctx.mine(idx) {
+                continue;
+            }
+            let mut rng = ctx.rng("oversized", idx);
+            let class = [0u32, 2, 4][j % 3];
+            let v = content_class(&mut rng, class, len);
+            check_decode(ctx, k, k.code(), &v, &tids[j % 3]);
+            ctx.count("oversized-values-decoded");
+        }
+    }
     // ---- exhaustive small domains ----
     // all lengths 0..=40 for every type with every other type's tag (wrong implementation)
     for k in ALL_KINDS {
@@ -464,7 +484,8 @@ pub fn run(ctx: &mut Ctx) {
         }
     }
     for k in ALL_KINDS {
-        ctx.require(&format!("accept:{}", k.name()), 20);
+        ctx.require("oversized-values-decoded", 100);
+    ctx.require(&format!("accept:{}", k.name()), 20);
         if k != Kind::AlternateDomain && k != Kind::UnknownAttributes {
             ctx.require(&format!("refuse:{}", k.name()), 20);
         }
